@@ -495,7 +495,6 @@ func (s *Sim) park(t *task) {
 	}
 }
 
-
 // ---------------------------------------------------------------------------
 // live list
 
